@@ -157,6 +157,11 @@ func (x *Exec) execRange(s *ast.RangeStmt, st *State) flow {
 		}
 	}
 	rs.val = x.eval(s.X, st)
+	if n, ok := litInt(rs.val); ok && n >= 0 && n <= 64 && isIntType(rt) {
+		if inv, _ := x.loopInvs(s); len(inv) == 0 {
+			return x.unrollIntRange(s, rs, int(n), st)
+		}
+	}
 	switch u := rt.Underlying().(type) {
 	case *types.Slice, *types.Array:
 		rs.kind = "slice"
@@ -204,6 +209,24 @@ func (x *Exec) unrollRange(s *ast.RangeStmt, cl *ast.CompositeLit, rs *rangeSpec
 	// all exits extend st's pc
 	out := x.joinLoose(st, append(exits, cur))
 	return flow{normal: out}
+}
+
+func (x *Exec) unrollIntRange(s *ast.RangeStmt, rs *rangeSpec, n int, st *State) flow {
+	cur := st
+	var exits []*State
+	for i := 0; i < n; i++ {
+		if cur == nil {
+			break
+		}
+		if rs.keyVar != nil {
+			x.bindRangeVar(cur, rs.keyVar, intLit(int64(i)), s.Tok)
+		}
+		pre := cur.clone()
+		f := x.execBlock(s.Body.List, cur)
+		exits = append(exits, f.brk...)
+		cur = x.join(pre, append([]*State{f.normal}, f.cont...))
+	}
+	return flow{normal: x.join(st, append(exits, cur))}
 }
 
 // joinLoose joins states that all extend base.pc (base itself is not mutated by the callers).
